@@ -92,6 +92,19 @@ func insert(nodes []*PatriciaNode, pos int, node *PatriciaNode) []*PatriciaNode 
 	}
 }
 
+// copyChildren returns a slice with its own backing array. A node that takes over the children of another
+// node must not share the array: the other node is still reachable from older tries and is appended to /
+// shifted in place (insert, the read-through cache of AccountTrieDB.Get), which would move or overwrite
+// the elements seen through the shared array.
+func copyChildren(children []*PatriciaNode) []*PatriciaNode {
+	if children == nil {
+		return nil
+	}
+	result := make([]*PatriciaNode, len(children))
+	copy(result, children)
+	return result
+}
+
 func (node *PatriciaNode) Clone() *PatriciaNode {
 	result := &PatriciaNode{
 		key:      node.key,
@@ -508,7 +521,7 @@ func (trie *PatriciaTrie) put(curNode *PatriciaNode, key string, data types.Node
 						dye:      dye,
 						terminal: child.terminal,
 						data:     child.data,
-						children: child.children,
+						children: copyChildren(child.children),
 					}
 
 					tmpChild := child.Clone()
@@ -516,7 +529,7 @@ func (trie *PatriciaTrie) put(curNode *PatriciaNode, key string, data types.Node
 					tmpChild.dye = dye
 					tmpChild.terminal = true
 					tmpChild.data = data
-					tmpChild.children = insert(child.children, 0, node)
+					tmpChild.children = insert(copyChildren(child.children), 0, node)
 
 					if curNode.dye == dye {
 						curNode.children[i] = tmpChild
@@ -543,7 +556,7 @@ func (trie *PatriciaTrie) put(curNode *PatriciaNode, key string, data types.Node
 					dye:      child.dye,
 					terminal: child.terminal,
 					data:     child.data,
-					children: child.children,
+					children: copyChildren(child.children),
 				}
 
 				node := &PatriciaNode{ // d#
